@@ -108,7 +108,7 @@ class Machine(object):
             name, p, r, got, exp, order = b
             prog = {'property': 'C17', 'seed': 0, 'config': {'budget': self.BUDGET['quick']},
                     'steps': [_req_step(1, name, 'lib', p, r, 'mp')]}
-            out.append((prog, {'property': 'C17', 'check': 'sweep-correct-rounding', 'entry': name, 'step': 1,
+            out.append((prog, {'property': 'C17', 'check': 'not-correctly-rounded', 'entry': name + '/lib', 'step': 1,
                                'detail': {'const': name, 'p': p, 'rounding': r, 'got': got, 'expected': exp, 'history': order}}))
         return out
 
